@@ -17,6 +17,8 @@ func genEndPlan(seed uint64, thorough bool) *Plan {
 	g := newGen(seed, 6)
 	p := &Plan{Prop: "C12", Seed: seed, Knobs: Knobs{RandSeed: int64(seed), MaxSteps: 80000, IdleCap: 2000}}
 	p.Knobs.Sticky = []int{0, 30, 60}[g.r.IntN(3)]
+	p.Knobs.Stall = []int{0, 20, 20, 40}[g.r.IntN(4)]
+	p.Knobs.PCT = []int{0, 0, 0, 2, 3}[g.r.IntN(5)]
 	bcmd := func(k, to string) []string {
 		switch g.r.IntN(5) {
 		case 0:
